@@ -180,6 +180,29 @@ def run(chk, replay=None):
         chk.cov["tsan_observer"] = {"ran": False, "why": str(e)[:300]}
         chk.notes.append("TSan observer unavailable (not a verdict)")
     # 3. structural binding
+    # non-temporal stores are ordered with later ordinary stores only by a fence: a result written with them and handed to another thread
+    # through an ordinary release could be seen stale there.  No run of this check can observe that; the built library is scanned instead
+    # (advisory: the pinned library has no such store)
+    try:
+        dis = subprocess.run(["objdump", "-d", "--no-show-raw-insn", os.path.join(bdir, "repo", "spqlios", "libspqlios.so")],
+                             capture_output=True, text=True, timeout=300).stdout
+        unfenced, cur, has_nt, has_fence = [], None, False, False
+        for line in dis.splitlines() + ["0 <end>:"]:
+            mfn = re.match(r"^[0-9a-f]+ <([^>]+)>:$", line)
+            if mfn:
+                if cur and has_nt and not has_fence:
+                    unfenced.append(cur)
+                cur, has_nt, has_fence = mfn.group(1), False, False
+            elif re.search(r"\bv?movnt", line):
+                has_nt = True
+            elif "sfence" in line or "mfence" in line:
+                has_fence = True
+        chk.cov["functions_with_unfenced_non_temporal_stores"] = unfenced
+        if unfenced:
+            chk.notes.append("non-temporal stores without a fence in %s: results handed to another thread may be seen stale there "
+                             "(not observable by the runs of this check; advisory)" % unfenced[:8])
+    except (OSError, subprocess.TimeoutExpired):
+        chk.cov["functions_with_unfenced_non_temporal_stores"] = "objdump unavailable"
     inv = static_inventory(bdir)
     modelled = [o for o in inv if re.match(r"^(p|precomp|prev_log2bound)(\.\d+)?$", o[1])]
     extra = [o for o in inv if o not in modelled]
